@@ -13,8 +13,14 @@ RULE = ("grid: every pair of prefix lengths (len x, len y) x 7 positions of x's 
         "diagonal. Plus random pairs/triples sharing a random number of leading bits (chains x <= y <= z for transitivity), "
         "and random lists (1..12 objects, siblings, duplicates, nested) for collapse_addresses. "
         "non-trivial = the two objects differ and at least one direction is decided by the interval comparison (container "
-        "prefix not 0 and not longer than the member's), distinct by request line. Empty objects (IPv4Obj()) and "
-        "mixed-family comparisons are not generated.")
+        "prefix not 0 and not longer than the member's), distinct by request line. "
+        "inx stream: 2..4 operands around one 32-bit pattern - non-empty objects of either family (prefix lengths 0, 1, 8, 24, "
+        "31, 32, w-1, w, random), the empty objects IPv4Obj() / IPv6Obj(), a str - and `a in b` for every ordered pair with the "
+        "escaping exception class (the oracle judges the same-family non-empty pairs; the rest is compared with the model). "
+        "collapsex stream: collapse_addresses on a list / tuple (Sequence) or set / iterator / dict / dict view (not a Sequence) "
+        "whose items are objects or stdlib networks (strict=False) of one family, plus in half of the cases one int / str / None "
+        "/ IPv4Address, an empty object, or an item of the other family. show stream: address, network number, last address "
+        "(as_decimal_broadcast / as_decimal_network_maxint) and numhosts of one object, prefix lengths biased to w-3..w.")
 LEVEL_TEXT = ("Theorems (Lean 4, all address/prefix pairs, any address width): 'x in y' as computed by IPv4Obj.__contains__ and "
               "IPv6Obj.__contains__ holds iff y's prefix is not longer and the leading len(y) bits agree, iff x's address interval "
               "lies inside y's, iff every address of x's network is an address of y's; it is reflexive and transitive. "
@@ -22,7 +28,13 @@ LEVEL_TEXT = ("Theorems (Lean 4, all address/prefix pairs, any address width): '
               "in Lean): for every list of objects the output covers exactly the addresses of the input networks, is well formed, "
               "ascending and pairwise disjoint, has no two networks with the same supernet and none inside another, and every network "
               "inside the covered set lies in one output network (canonical minimal cover). The model is additionally compared with "
-              "ipaddress.collapse_addresses and an interval oracle on random lists.")
+              "ipaddress.collapse_addresses and an interval oracle on random lists. The operator on any operands (containsX): on two "
+              "non-empty objects of one family it is that membership test and never raises; IPv4Obj() in IPv4Obj() is true, an empty "
+              "IPv4 object is in no object and contains none; an empty IPv6 container raises ValueError; an operand of the other "
+              "family is decided by prefix lengths / the first comparison or raises ValueError, never by containment. "
+              "collapse_addresses on a Sequence of objects and stdlib networks of one family is the stdlib collapse of the networks "
+              "they stand for (objects and their .network give the same result); a non-Sequence or an item of another type raises "
+              "ValueError, an empty object AttributeError, neighbouring items of different families TypeError.")
 LEVEL_NOTE = ("Trusted: Lean kernel; axioms propext/Classical.choice/Quot.sound only; the correspondence harness; the value-level "
               "reading of an object as (int(ip_object), network_object). Proved about the model, measured against the code; "
               "the stdlib ipaddress module is the third, independent voice. For collapse_addresses the proved object is the Lean "
@@ -90,7 +102,50 @@ def mk_collapse(fam, objs, origin="gen"):
             "req": wire.req("ipval", "collapse", str(fam), enc_objs(objs)), "_origin": origin}
 
 
+def enc_arg(a):
+    return "o" if a[0] == "o" else f"{a[0]}:e" if a[1] == "e" else f"{a[0]}:{a[1]}/{a[2]}"
+
+
+def mk_inx(args, origin="gen", tag="inx"):
+    """`a in b` for every ordered pair of operands that `__contains__` may meet: [fam, ip, len] (an object), [fam, "e"] (the
+    empty object IPv4Obj() / IPv6Obj()), ["o"] (a str)"""
+    args = [list(a) for a in args]
+    return {"kind": "inx", "args": args, "tag": tag,
+            "req": wire.req("ipvalx", "in", ";".join(enc_arg(a) for a in args)), "_origin": origin}
+
+
+SEQ_KINDS = {"list": True, "tuple": True, "set": False, "iter": False, "dictkeys": False, "dict": False}
+
+
+def enc_item(it):
+    return it[0] if it[0] in ("e", "b") else f"{it[0]}{it[1]}:{it[2]}/{it[3]}"
+
+
+def mk_collapsex(seqkind, items, origin="gen"):
+    """collapse_addresses(arg): arg is a list / tuple (Sequence) or a set / iterator / dict (not a Sequence) of items
+    ["o", fam, ip, len] (address object), ["n", fam, ip, len] (stdlib network, strict=False), ["e", fam] (empty object),
+    ["b", what] (an int / str / None / IPv4Address)"""
+    items = [list(i) for i in items]
+    if seqkind in ("set", "dict", "dictkeys") and any(i[0] == "e" and i[1] == 6 for i in items):
+        seqkind = "iter"        # hash(IPv6Obj()) raises: such an item cannot be put into a set / dict by the harness
+    return {"kind": "collapsex", "seqkind": seqkind, "items": items, "tag": "collapsex",
+            "req": wire.req("ipvalx", "collapse", "seq" if SEQ_KINDS[seqkind] else "nonseq", ";".join(enc_item(i) for i in items)),
+            "_origin": origin}
+
+
+def mk_show(fam, ip, ln, origin="gen"):
+    """the bounds `in` compares: as_decimal_network, as_decimal_broadcast / as_decimal_network_maxint, and numhosts"""
+    return {"kind": "show", "fam": fam, "obj": [int(ip), int(ln)], "tag": "show",
+            "req": wire.req("ipval", "seq", str(fam), f"{ip}/{ln}", "show"), "_origin": origin}
+
+
 def from_corpus(c):
+    if c.get("kind") == "inx":
+        return mk_inx(c["args"], "corpus")
+    if c.get("kind") == "collapsex":
+        return mk_collapsex(c["seqkind"], c["items"], "corpus")
+    if c.get("kind") == "show":
+        return mk_show(c["fam"], c["obj"][0], c["obj"][1], "corpus")
     return (mk_collapse if c.get("kind") == "collapse" else mk_cmp)(c["fam"], c["objs"], "corpus")
 
 
@@ -186,6 +241,58 @@ def rand_collapse(rng, fam):
     return mk_collapse(fam, objs)
 
 
+def rand_inx(rng):
+    """2..4 operands around one 32-bit pattern (so that network numbers of the two families are comparable): objects of either
+    family with boundary prefix lengths, the two empty objects, a str"""
+    base = rand_ip(rng, 4)
+    args = []
+    for _ in range(rng.choice([2, 3, 3, 4])):
+        r = rng.random()
+        fam = rng.choice([4, 4, 6])
+        if r < 0.18:
+            args.append([fam, "e"])
+        elif r < 0.24:
+            args.append(["o"])
+        else:
+            w = W[fam]
+            ip = related(rng, 4, base) if rng.random() < 0.8 else rand_ip(rng, fam)
+            if fam == 6 and rng.random() < 0.3:
+                ip = (ip << rng.choice([0, 8, 96])) & ((1 << 128) - 1)
+            ln = rng.choice([0, 0, 1, 8, 24, 31, 32, w - 1, w, rng.randint(0, w)])
+            args.append([fam, ip, min(ln, w)])
+    return mk_inx(args)
+
+
+BAD_ITEMS = ["int", "str", "none", "addr"]
+
+
+def rand_collapsex(rng):
+    fam = rng.choice([4, 6])
+    base = rand_collapse(rng, fam)["objs"] or [[rand_ip(rng, fam), W[fam]]]
+    items = [[rng.choice("on"), fam, ip, ln] for ip, ln in base]
+    r = rng.random()
+    seqkind = rng.choice(["list", "list", "tuple"])
+    if r < 0.15:
+        seqkind = rng.choice(["set", "iter", "dict", "dictkeys"])
+    elif r < 0.30:
+        items.insert(rng.randrange(len(items) + 1), ["b", rng.choice(BAD_ITEMS)])
+    elif r < 0.38:
+        items.insert(rng.randrange(len(items) + 1), ["e", fam])
+    elif r < 0.50:
+        of = 10 - fam
+        items.insert(rng.randrange(len(items) + 1), [rng.choice("on"), of, rand_ip(rng, of), rng.randint(0, W[of])])
+    if rng.random() < 0.06:
+        items.insert(rng.randrange(len(items) + 1), rng.choice([["b", rng.choice(BAD_ITEMS)], ["e", fam]]))
+    if rng.random() < 0.04:
+        items = []
+    return mk_collapsex(seqkind, items)
+
+
+def rand_show(rng, fam):
+    w = W[fam]
+    return mk_show(fam, rand_ip(rng, fam), rng.choice([0, 1, w - 3, w - 2, w - 1, w, rng.randint(0, w), rng.randint(0, w)]))
+
+
 V6_QUICK_LENS = sorted(set(range(0, 129, 3)) | set(range(118, 129)))
 
 
@@ -200,9 +307,53 @@ def cases(rng, tier):
             yield rand_collapse(rng, fam)
         else:
             yield rand_cmp(rng, fam)
+    # the other operands __contains__ / collapse_addresses accept or reject, and the bounds `in` compares
+    for i in range({"quick": 1500, "thorough": 30000, "search": 900}[tier]):
+        if i % 3 == 0:
+            yield rand_inx(rng)
+        elif i % 3 == 1:
+            yield rand_collapsex(rng)
+        else:
+            yield rand_show(rng, 4 if i % 2 else 6)
 
 
 def neighbours(case, rng):
+    if case["kind"] == "inx":
+        for _ in range(300):
+            args = [list(a) for a in case["args"]]
+            i = rng.randrange(len(args))
+            if len(args[i]) == 3:
+                w = W[args[i][0]]
+                if rng.random() < 0.5:
+                    args[i][2] = max(0, min(w, args[i][2] + rng.choice([-1, 1])))
+                else:
+                    args[i][1] = max(0, min((1 << w) - 1, args[i][1] + rng.choice([-2, -1, 1, 2])))
+            else:
+                args[i] = rng.choice([[4, "e"], [6, "e"], ["o"], [4, rand_ip(rng, 4), rng.randint(0, 32)]])
+            yield mk_inx(args)
+        return
+    if case["kind"] == "collapsex":
+        for _ in range(300):
+            items = [list(a) for a in case["items"]]
+            if items and rng.random() < 0.7:
+                i = rng.randrange(len(items))
+                if items[i][0] in "on":
+                    w = W[items[i][1]]
+                    items[i][3] = max(0, min(w, items[i][3] + rng.choice([-1, 0, 1])))
+                    items[i][0] = rng.choice("on")
+                else:
+                    del items[i]
+            else:
+                items.append(rng.choice([["b", "int"], ["e", 4], ["o", 4, rand_ip(rng, 4), 32], ["n", 6, rand_ip(rng, 6), 128]]))
+            yield mk_collapsex(rng.choice(list(SEQ_KINDS)) if rng.random() < 0.2 else case["seqkind"], items)
+        return
+    if case["kind"] == "show":
+        fam = case["fam"]
+        for d in (-2, -1, 1, 2):
+            yield mk_show(fam, max(0, min((1 << W[fam]) - 1, case["obj"][0] + d)), case["obj"][1])
+        for ln in range(W[fam] + 1):
+            yield mk_show(fam, case["obj"][0], ln)
+        return
     fam = case["fam"]
     w = W[fam]
     for _ in range(400):
@@ -218,6 +369,12 @@ def neighbours(case, rng):
 
 
 def nontrivial(case):
+    if case["kind"] == "inx":
+        return len(case["args"]) >= 2
+    if case["kind"] == "collapsex":
+        return len(case["items"]) >= 1
+    if case["kind"] == "show":
+        return True
     objs = case["objs"]
     if case["kind"] == "collapse":
         return len(objs) >= 2
@@ -229,12 +386,38 @@ def nontrivial(case):
 
 
 def describe(case):
+    if case["kind"] == "inx":
+        return {"kind": "inx", "operands": [
+            "a str" if a[0] == "o" else f"IPv{a[0]}Obj()" if a[1] == "e" else f"IPv{a[0]}Obj({addr_text(a[0], a[1])}/{a[2]})"
+            for a in case["args"]]}
+    if case["kind"] == "collapsex":
+        return {"kind": "collapsex", "argument": case["seqkind"], "items": [
+            "IPv%dObj()" % it[1] if it[0] == "e" else "a " + it[1] if it[0] == "b" else
+            ("IPv%dObj(%s/%d)" if it[0] == "o" else "IPv%dNetwork(%s/%d, strict=False)") % (it[1], addr_text(it[1], it[2]), it[3])
+            for it in case["items"]]}
+    if case["kind"] == "show":
+        return {"kind": "show", "family": case["fam"], "object": f"{addr_text(case['fam'], case['obj'][0])}/{case['obj'][1]}"}
     fam = case["fam"]
     return {"kind": case["kind"], "family": fam, "tag": case.get("tag"),
             "objects": [f"{addr_text(fam, ip)}/{ln}" for ip, ln in case["objs"]]}
 
 
 def buckets(case, ans):
+    if case["kind"] == "inx":
+        out = ["inx"]
+        n = len(case["args"])
+        cells = ans.split(",")
+        for i, a in enumerate(case["args"]):
+            for j, b in enumerate(case["args"]):
+                if len(cells) == n * n and cells[i * n + j] != "-":
+                    what = lambda x: "str" if x[0] == "o" else f"empty{x[0]}" if x[1] == "e" else f"obj{x[0]}"  # noqa: E731
+                    out.append(f"inx:{what(a)} in {what(b)}:{cells[i * n + j]}")
+        return out
+    if case["kind"] == "collapsex":
+        forms = sorted({it[0] for it in case["items"]})
+        return ["collapsex", "collapsex:%s:%s:%s" % (case["seqkind"], "".join(forms), ans.split(":")[0] if ans.startswith("ok") else ans)]
+    if case["kind"] == "show":
+        return [f"v{case['fam']}:show", f"v{case['fam']}:show:len-from-top:%d" % min(3, W[case["fam"]] - case["obj"][1])]
     fam = case["fam"]
     out = [f"v{fam}:{case['kind']}", f"v{fam}:{case.get('tag')}"]
     if case["kind"] == "cmp" and "|" in ans:
@@ -250,9 +433,67 @@ def buckets(case, ans):
 
 
 # ------------------------------------------------------------------ implementation
+def exc_name(e):
+    return "err:" + type(e).__name__
+
+
+def build_arg(a):
+    quiet_ccp()
+    from ciscoconfparse2.ccp_util import IPv4Obj, IPv6Obj
+    if a[0] == "o":
+        return "10.0.0.1/8"
+    cls = IPv4Obj if a[0] == 4 else IPv6Obj
+    return cls() if a[1] == "e" else cls(f"{addr_text(a[0], a[1])}/{a[2]}")
+
+
+def build_item(it):
+    quiet_ccp()
+    from ciscoconfparse2.ccp_util import IPv4Obj, IPv6Obj
+    if it[0] == "e":
+        return (IPv4Obj if it[1] == 4 else IPv6Obj)()
+    if it[0] == "b":
+        return {"int": 1, "str": "10.0.0.0/8", "none": None, "addr": ipaddress.ip_address("10.0.0.1")}[it[1]]
+    if it[0] == "o":
+        return make_obj(it[1], it[2], it[3])
+    return std_net(it[1], it[2], it[3])
+
+
 def impl(case):
     if case["kind"] == "cmp":
         return impl_cmp(case)[0]
+    if case["kind"] == "inx":
+        objs = [build_arg(a) for a in case["args"]]
+        cells = []
+        for a in objs:
+            for b in objs:
+                if isinstance(b, str):
+                    cells.append("-")         # `x in "a str"` is not __contains__ of an address object
+                    continue
+                try:
+                    cells.append(tf(a in b))
+                except (ValueError, AttributeError, TypeError, NotImplementedError, AssertionError) as e:
+                    cells.append(exc_name(e))
+        return ",".join(cells)
+    if case["kind"] == "collapsex":
+        quiet_ccp()
+        from ciscoconfparse2.ccp_util import collapse_addresses
+        items = [build_item(it) for it in case["items"]]
+        arg = {"list": list, "tuple": tuple, "set": set, "iter": iter, "dictkeys": lambda l: dict.fromkeys(l).keys(),
+               "dict": dict.fromkeys}[case["seqkind"]](items)
+        try:
+            res = list(collapse_addresses(arg))
+        except (ValueError, AttributeError, TypeError) as e:
+            return exc_name(e)
+        return "ok:" + ";".join(f"{int(n.network_address)}/{n.prefixlen}" for n in res)
+    if case["kind"] == "show":
+        fam = case["fam"]
+        o = make_obj(fam, *case["obj"])
+        try:
+            nh = str(o.numhosts)
+        except NotImplementedError as e:
+            nh = exc_name(e)
+        top = o.as_decimal_broadcast if fam == 4 else o.as_decimal_network_maxint
+        return f"{o.as_decimal},{o.as_decimal_network},{o.prefixlen},{top},{nh}"
     quiet_ccp()
     from ciscoconfparse2.ccp_util import collapse_addresses
     fam = case["fam"]
@@ -331,7 +572,54 @@ def oracle_collapse(case, ans):
     return fails[:3]
 
 
+def oracle_inx(case, ans):
+    """the property speaks about two (non-empty) objects of one family; it is silent about empty objects, the other family
+    and operands that are no address objects (those cells are only compared with the model)"""
+    args = case["args"]
+    n = len(args)
+    cells = ans.split(",")
+    if len(cells) != n * n:
+        return [f"malformed answer {ans[:80]}"]
+    fails = []
+    for i, a in enumerate(args):
+        for j, b in enumerate(args):
+            if len(a) == 3 and len(b) == 3 and a[0] == b[0]:
+                fam, w = a[0], W[a[0]]
+                want = b[2] <= a[2] and (a[1] >> (w - b[2])) == (b[1] >> (w - b[2]))
+                assert want == std_net(fam, a[1], a[2]).subnet_of(std_net(fam, b[1], b[2]))
+                if cells[i * n + j] != tf(want):
+                    fails.append(f"{addr_text(fam, a[1])}/{a[2]} in {addr_text(fam, b[1])}/{b[2]} is {cells[i * n + j]}, "
+                                 f"subnet containment is {want}")
+    return fails[:3]
+
+
+def oracle_collapsex(case, ans):
+    items = case["items"]
+    fams = {it[1] for it in items if it[0] in "on"}
+    if not SEQ_KINDS[case["seqkind"]] or any(it[0] in "eb" for it in items) or len(fams) > 1:
+        return []       # not "a list of address objects" of one family: the property is silent (model comparison only)
+    if not ans.startswith("ok:"):
+        return [f"a list of address objects / networks of one family raised {ans}"]
+    fam = fams.pop() if fams else 4
+    # a stdlib network stands for the same network as the object it was built from
+    return oracle_collapse({"fam": fam, "objs": [[it[2], it[3]] for it in items]}, ans[3:])
+
+
+def oracle_show(case, ans):
+    fam, (ip, ln) = case["fam"], case["obj"]
+    net = std_net(fam, ip, ln)
+    want = [str(ip), str(int(net.network_address)), str(ln), str(int(net.broadcast_address))]
+    got = ans.split(",")
+    return [] if got[:4] == want else [f"(address, network, length, last address) is {got[:4]}, expected {want}"]
+
+
 def oracle(case, ans):
+    if case["kind"] == "inx":
+        return oracle_inx(case, ans)
+    if case["kind"] == "collapsex":
+        return oracle_collapsex(case, ans)
+    if case["kind"] == "show":
+        return oracle_show(case, ans)
     if ans.startswith("err"):
         return [f"raised {ans}"]
     return oracle_collapse(case, ans) if case["kind"] == "collapse" else oracle_membership(case, ans)
